@@ -451,7 +451,7 @@ def check_dataset(ctx, case, small):
             ctx.violation("size", f"centered-instance dataset: crop {tuple(img.shape[-2:])} != crop size (padded to stride) {want_hw}", small)
         tol = 1.0 + (0.5 if case["max_hw"] else 0.0) + (1.0 if case["scale"] != 1.0 else 0.0)  # integer rounding of the resized sizes
         if case.get("np_chunks"):
-            tol += 0.5  # chunk files hold 8-bit images written by truncation: the coordinate code of a pixel can be one level (= one pixel) low, which biases the fit by up to half a pixel
+            tol += 1.0  # chunk files hold 8-bit images written by truncation: the coordinate code of a pixel can be one level (= one pixel) low, on all pixels of an axis in the worst case
         reg_check(ctx, small, "registration", o, kp, np.asarray(orig, np.float32), marker_level=marker_level, tol=tol, aug_rotation=case["rotation"] if aug else 0.0,
                   what=f"{cls} dataset (aug={aug}, scale={case['scale']}, max_hw={case['max_hw']})")
     for d_ in chunk_dirs:
